@@ -505,6 +505,215 @@ func c01LookupFirst(c *core.Ctx) {
 		"FetchPayload is reached only with a found backend", "the request body is fetched (413 / 400 possible) before the backend lookup has succeeded: a route whose backend does not exist answers 413/400 instead of 503 for some bodies", witness(bad)...)
 }
 
+// c01ModeField resolves the match-all flag of the runtime path when it is kept as an enum: the field F
+// of typ that is set from a local m whose definitions are constants — K1 in the then-branch of
+// `if <spec>.MatchAllHeader {..}`, another constant K0 before that statement or in its else-branch —
+// so that F == K1 exactly when the spec asks for all headers. Returns F and K1's value.
+func c01ModeField(c *core.Ctx, typ *types.Named, src *types.Var) (*types.Var, string) {
+	pkg := c.Prog.Pkg(hs)
+	if pkg == nil || typ == nil || src == nil {
+		return nil, ""
+	}
+	info := pkg.TypesInfo
+	isSrc := func(e ast.Expr) bool {
+		sel, ok := ast.Unparen(e).(*ast.SelectorExpr)
+		if !ok {
+			return false
+		}
+		sl := info.Selections[sel]
+		return sl != nil && sl.Obj() == types.Object(src)
+	}
+	var outF *types.Var
+	outK := ""
+	n := 0
+	for _, file := range pkg.Syntax {
+		for _, d := range file.Decls {
+			fd, ok := d.(*ast.FuncDecl)
+			if !ok || fd.Body == nil {
+				continue
+			}
+			var ifs []*ast.IfStmt
+			ast.Inspect(fd.Body, func(x ast.Node) bool {
+				if is, ok := x.(*ast.IfStmt); ok && is.Init == nil && isSrc(is.Cond) {
+					ifs = append(ifs, is)
+				}
+				return true
+			})
+			if len(ifs) != 1 {
+				continue
+			}
+			is := ifs[0]
+			within := func(x ast.Node, b ast.Node) bool { return b != nil && x.Pos() >= b.Pos() && x.End() <= b.End() }
+			// the local assigned a constant in the then-branch
+			type defs struct {
+				k1, k0 map[string]bool
+				bad    bool
+			}
+			locals := map[types.Object]*defs{}
+			note := func(o types.Object, rhs ast.Expr, at ast.Node) {
+				if o == nil {
+					return
+				}
+				dd := locals[o]
+				if dd == nil {
+					dd = &defs{k1: map[string]bool{}, k0: map[string]bool{}}
+					locals[o] = dd
+				}
+				tv, ok := info.Types[rhs]
+				if rhs == nil || !ok || tv.Value == nil {
+					dd.bad = true
+					return
+				}
+				switch {
+				case within(at, is.Body):
+					dd.k1[tv.Value.ExactString()] = true
+				case at.End() <= is.Pos() || (is.Else != nil && within(at, is.Else)):
+					dd.k0[tv.Value.ExactString()] = true
+				default:
+					dd.bad = true
+				}
+			}
+			ast.Inspect(fd.Body, func(x ast.Node) bool {
+				switch y := x.(type) {
+				case *ast.AssignStmt:
+					for i, l := range y.Lhs {
+						id, ok := ast.Unparen(l).(*ast.Ident)
+						if !ok {
+							continue
+						}
+						o := info.Defs[id]
+						if o == nil {
+							o = info.Uses[id]
+						}
+						if v, isVar := o.(*types.Var); !isVar || v.IsField() {
+							continue
+						}
+						if len(y.Lhs) == len(y.Rhs) && (y.Tok == token.ASSIGN || y.Tok == token.DEFINE) {
+							note(o, y.Rhs[i], y)
+						} else {
+							note(o, nil, y)
+						}
+					}
+				case *ast.ValueSpec:
+					for i, nm := range y.Names {
+						if i < len(y.Values) {
+							note(info.Defs[nm], y.Values[i], y)
+						} else if o := info.Defs[nm]; o != nil {
+							// `var m T`: the zero value
+							if bt, ok := o.Type().Underlying().(*types.Basic); ok && bt.Info()&types.IsInteger != 0 && y.End() <= is.Pos() {
+								dd := locals[o]
+								if dd == nil {
+									dd = &defs{k1: map[string]bool{}, k0: map[string]bool{}}
+									locals[o] = dd
+								}
+								dd.k0["0"] = true
+							}
+						}
+					}
+				case *ast.UnaryExpr:
+					if id, ok := ast.Unparen(y.X).(*ast.Ident); ok && y.Op == token.AND {
+						if dd := locals[info.Uses[id]]; dd != nil {
+							dd.bad = true
+						}
+					}
+				}
+				return true
+			})
+			// the field of typ set from such a local (after the if statement)
+			use := func(fv *types.Var, val ast.Expr, at ast.Node) {
+				id, ok := ast.Unparen(val).(*ast.Ident)
+				if !ok || fv == nil || at.Pos() < is.End() {
+					return
+				}
+				dd := locals[info.Uses[id]]
+				if dd == nil || dd.bad || len(dd.k1) != 1 || len(dd.k0) != 1 {
+					return
+				}
+				k1 := ""
+				for k := range dd.k1 {
+					k1 = k
+				}
+				if dd.k0[k1] {
+					return
+				}
+				bt, ok := fv.Type().Underlying().(*types.Basic)
+				if !ok || bt.Info()&types.IsInteger == 0 {
+					return
+				}
+				n++
+				outF, outK = fv, k1
+			}
+			ast.Inspect(fd.Body, func(x ast.Node) bool {
+				switch y := x.(type) {
+				case *ast.CompositeLit:
+					if tv, ok := info.Types[y]; ok && muxDerefNamed(tv.Type) != nil && muxDerefNamed(tv.Type).Obj() == typ.Obj() {
+						for _, el := range y.Elts {
+							if kv, ok := el.(*ast.KeyValueExpr); ok {
+								if k, ok := kv.Key.(*ast.Ident); ok {
+									use(muxOneField(typ, k.Name, func(v *types.Var) bool { return v.Name() == k.Name }), kv.Value, kv)
+								}
+							}
+						}
+					}
+				case *ast.AssignStmt:
+					if len(y.Lhs) == len(y.Rhs) {
+						for i, l := range y.Lhs {
+							if sel, ok := ast.Unparen(l).(*ast.SelectorExpr); ok {
+								if sl := info.Selections[sel]; sl != nil && muxDerefNamed(sl.Recv()) != nil && muxDerefNamed(sl.Recv()).Obj() == typ.Obj() {
+									if fv, ok := sl.Obj().(*types.Var); ok {
+										use(fv, y.Rhs[i], y)
+									}
+								}
+							}
+						}
+					}
+				}
+				return true
+			})
+		}
+	}
+	if n != 1 {
+		return nil, ""
+	}
+	// every other store to the field in the package would break "F == K1 iff MatchAllHeader"
+	stores := 0
+	for _, file := range pkg.Syntax {
+		ast.Inspect(file, func(x ast.Node) bool {
+			switch y := x.(type) {
+			case *ast.AssignStmt:
+				for _, l := range y.Lhs {
+					if sel, ok := ast.Unparen(l).(*ast.SelectorExpr); ok {
+						if sl := info.Selections[sel]; sl != nil && sl.Obj() == types.Object(outF) {
+							stores++
+						}
+					}
+				}
+			case *ast.IncDecStmt:
+				if sel, ok := ast.Unparen(y.X).(*ast.SelectorExpr); ok {
+					if sl := info.Selections[sel]; sl != nil && sl.Obj() == types.Object(outF) {
+						stores += 2
+					}
+				}
+			case *ast.KeyValueExpr:
+				if k, ok := y.Key.(*ast.Ident); ok && info.Uses[k] == types.Object(outF) {
+					stores++
+				}
+			case *ast.UnaryExpr:
+				if sel, ok := ast.Unparen(y.X).(*ast.SelectorExpr); ok && y.Op == token.AND {
+					if sl := info.Selections[sel]; sl != nil && sl.Obj() == types.Object(outF) {
+						stores += 2
+					}
+				}
+			}
+			return true
+		})
+	}
+	if stores != 1 {
+		return nil, ""
+	}
+	return outF, outK
+}
+
 // R-C01-11: the two header modes combine the per-header predicates differently.
 func c01HeaderModes(c *core.Ctx) {
 	c.Rule("R-C01-11", "header modes: with matchAllHeader every header must hold — its value is in the value list (when one is configured) AND matches the expression (when one is configured) — and a failed predicate ends the matcher with false; without it one header whose value is in the list OR matches the expression ends the matcher with true; after all headers the result is matchAllHeader")
@@ -527,7 +736,12 @@ func c01HeaderModes(c *core.Ctx) {
 	valuesF := muxOneField(headerT, "Values", func(v *types.Var) bool { return v.Name() == "Values" })
 	regexpF := muxOneField(headerT, "Regexp", func(v *types.Var) bool { return v.Name() == "Regexp" })
 	reF := muxOneField(headerT, "headerRE", func(v *types.Var) bool { return strings.HasSuffix(v.Type().String(), "regexp.Regexp") })
-	allF := muxFieldInitFrom(c, ro.pathT, muxOneField(pathSpecT, "MatchAllHeader", func(v *types.Var) bool { return v.Name() == "MatchAllHeader" }))
+	allSrc := muxOneField(pathSpecT, "MatchAllHeader", func(v *types.Var) bool { return v.Name() == "MatchAllHeader" })
+	allF := muxFieldInitFrom(c, ro.pathT, allSrc)
+	allK := "" // the flag kept as an enum: the constant that stands for "match all"
+	if allF == nil {
+		allF, allK = c01ModeField(c, ro.pathT, allSrc)
+	}
 	if valuesF == nil || regexpF == nil || reF == nil || allF == nil {
 		c.Errorf("R-C01-11: anchor: cannot resolve Header.Values / Header.Regexp / the compiled expression / the MuxPath flag initialised from Path.MatchAllHeader")
 		return
@@ -608,7 +822,35 @@ func c01HeaderModes(c *core.Ctx) {
 		}
 		return false
 	}
+	// isAllTest: e is `<path>.flag == K` (K the match-all constant) / `!=`; neg for the latter
+	isAllTest := func(e ast.Expr) (is, neg bool) {
+		be, ok := ast.Unparen(e).(*ast.BinaryExpr)
+		if !ok || allK == "" || (be.Op != token.EQL && be.Op != token.NEQ) {
+			return false, false
+		}
+		for i, side := range []ast.Expr{be.X, be.Y} {
+			other := be.Y
+			if i == 1 {
+				other = be.X
+			}
+			if tv, ok := info.Types[other]; ok && tv.Value != nil && tv.Value.ExactString() == allK && selects(side, allF) {
+				return true, be.Op == token.NEQ
+			}
+		}
+		return false, false
+	}
 	mode := func(st *flow.State) flow.Val {
+		if allK != "" {
+			for _, fact := range st.Facts() {
+				if strings.HasPrefix(fact, "eq:") && strings.HasSuffix(fact[:len(fact)-2], "."+allF.Name()+"=="+allK) {
+					if strings.HasSuffix(fact, "=T") {
+						return flow.True
+					}
+					return flow.False
+				}
+			}
+			return flow.Unknown
+		}
 		for _, fact := range st.Facts() {
 			if strings.HasPrefix(fact, "v:") && strings.HasSuffix(fact[:len(fact)-2], "."+allF.Name()) {
 				if strings.HasSuffix(fact, "=T") {
@@ -683,8 +925,16 @@ func c01HeaderModes(c *core.Ctx) {
 			if info.Types[r].Value.ExactString() == "true" {
 				val = flow.True
 			}
-		case selects(r, allF):
+		case selects(r, allF) && allK == "":
 			val = m
+		case func() bool { is, _ := isAllTest(r); return is }():
+			val = m
+			if _, neg := isAllTest(r); neg && m != flow.Unknown {
+				val = flow.True
+				if m == flow.True {
+					val = flow.False
+				}
+			}
 		case muxIdentOf(r) != nil:
 			val = st.Get(f.VarKey(r))
 		}
